@@ -48,6 +48,9 @@ CONSTANTS Parts,      \* subset of {"shape", "expr", "doc"}: the parts of the ca
           SlotSet,    \* expr part: the slots explored
           SpineSlots, \* expr part: slots explored with the full MaxSpine (others get spines of length <= 1)
           DeepLeaves, \* expr part: leaves used below spines of length >= 2
+          MemberLoaders, \* kinds whose _load_xxx loads `members`: {"module", "class", "function"} is the code; without
+                      \* "function" the model is the decoder before "fix: reload the members of functions from JSON"
+                      \* (model-only regression domain, spec/cfg/Serde_regress_members.cfg)
           Emit
 
 \* =================================================================================================
@@ -468,9 +471,9 @@ HookObject(j, sub) ==
                                     !.value = LoadEV(Get(j, "value")), !.annotation = LoadEV(Get(j, "annotation"))]
                   [] kind = "alias" ->
                        [base EXCEPT !.alineno = Ty(Get(j, "lineno")), !.aendlineno = TyRel(Get(j, "endlineno"))]
-           \* members are set and their expressions re-attached only by _load_module and _load_class
+           \* members are set and their expressions re-attached by _load_module, _load_class and _load_function
            \* (a class additionally attaches its own expressions to itself; its container overrides that)
-           kids == IF kind \in {"module", "class"} /\ Len(sub) > 0
+           kids == IF kind \in MemberLoaders /\ Len(sub) > 0
                    THEN <<AttachObj(sub[1])>> \o Tail(sub) ELSE <<>>
        IN Okay(<<o>> \o kids)
 
@@ -728,8 +731,9 @@ CleanDecode == TRUE
 \* Declaratively: the walk gives every name the parent class the builder gave it (scope for a name, prev / str /
 \* none inside attribute chains); what can still differ is the scope OBJECT: the value and annotation of an attribute
 \* assigned in __init__ were built in the scope of the function and come back attached to the class.
-\* _load_function (and _load_attribute) do not load `members`: what the visitor stored below a function is dropped
-CleanMembers == \A i \in 1..(Len(MkChain) - 1) : MkChain[i].kind \in {"module", "class"}
+\* a loader that does not load `members` drops what the agent stored below such an object (_load_attribute; attributes
+\* never have members)
+CleanMembers == \A i \in 1..(Len(MkChain) - 1) : MkChain[i].kind \in MemberLoaders
 CleanNames == LET o == FocusOf(MkChain)
               IN CleanMembers /\ \A i \in 1..Len(SlotsOf(o)) :
                    (\E k \in 1..Len(NamePars(SlotsOf(o)[i].ev.e)) : NamePars(SlotsOf(o)[i].ev.e)[k] = "scope")
